@@ -41,7 +41,11 @@ ASSUMPTIONS = [
     "Detectable garbling: an unsynced uncommitted file is after a crash either intact or fails the Adler-32 check (proved for "
     "truncation below 4 bytes, zero fill, any single-byte change; garblings that accidentally verify are skipped and counted)",
     "after a crash the user deletes the stale .bob-state.lock as the error message instructs; the next start is taken after that",
-    "errors of the file system calls themselves (EIO, ENOSPC, read-only directory) and the non-EEXIST lock failure are not modelled",
+    "I/O errors: an injected OSError makes the call fail without effect (a failed write leaves a prefix in .dirty, which nobody "
+    "reads); a failed fsync leaves the file unsynced; injection is by wrapping open/os.fsync/os.replace/os.unlink/os.stat/os.open "
+    "in the child process (ENOSPC, EIO), not by the kernel",
+    "recover_is_snapshot_faulty is proved under StartOK (exists() of the uncommitted file and the unlink of a rejected uncommitted "
+    "file do not fail at start-up); without it the model and the real code lose the state (F-C10-3, Props/C10.faulty_goal_fails)",
     "pickle is an injective self-delimiting codec (Cfg.Lawful); version upgrades of old states are abstract (`Cfg.up`)",
     "little-endian host for struct.pack('=L') (checked at run time, otherwise skipped)",
     "the sqlite build-id cache is outside the model",
@@ -1069,6 +1073,538 @@ def verify_cases(ctx):
     return out
 
 
+
+# ---------------------------------------------------------------------------------------------
+# I/O errors: fault injection into real `_BobState` runs (child process), oracle and correspondence
+
+FAULT_SIG_UNREADABLE = "F-C10-3-unverified-commit-after-failed-discard"
+
+
+def fault_child_main(argv):
+    """argv: base directory, histories file, output file.  Runs every history on the real _BobState with OSErrors
+    injected at the planned file-system call of the planned step, then (faults off, stale lock removed) a fresh
+    start, one more successful save + finalize, and another start."""
+    import builtins
+    import errno
+    base, hist_path, out_path = argv[1:4]
+    hists = json.load(open(hist_path))
+    import urllib.parse  # noqa
+    import bob.state
+    from bob.state import _BobState
+    real_open, real_fsync, real_unlink, real_stat, real_osopen, real_replace = \
+        builtins.open, os.fsync, os.unlink, os.stat, os.open, os.replace
+    plan = {}
+    hits = []
+
+    def err(site):
+        e = plan.get(site)
+        if e:
+            hits.append(site)
+            raise OSError(getattr(errno, e), os.strerror(getattr(errno, e)))
+
+    class WProxy:
+        def __init__(self, f):
+            self.f, self.n = f, 0
+
+        def write(self, data):
+            self.n += 1
+            mode = plan.get("save.write")
+            if mode and (mode[1] == "first" or len(data) == 4):
+                if mode[1] == "first" and self.n == 1:
+                    self.f.write(data[:3])
+                hits.append("save.write")
+                raise OSError(getattr(errno, mode[0]), os.strerror(getattr(errno, mode[0])))
+            return self.f.write(data)
+
+        def __enter__(self):
+            return self
+
+        def __exit__(self, *a):
+            self.f.close()
+            return False
+
+        def __getattr__(self, k):
+            return getattr(self.f, k)
+
+    class RProxy(WProxy):
+        def read(self, *a):
+            err("commit.read")
+            return self.f.read(*a)
+
+    def p_open(path, mode="r", *a, **kw):
+        b = os.path.basename(str(path)) if isinstance(path, (str, bytes, os.PathLike)) else ""
+        if b == ".bob-state.pickle.new.dirty" and "w" in mode:
+            err("save.open")
+            f = real_open(path, mode, *a, **kw)
+            return WProxy(f) if "save.write" in plan else f
+        if b == ".bob-state.pickle.new" and mode == "r+b":
+            err("commit.open")
+            f = real_open(path, mode, *a, **kw)
+            return RProxy(f) if "commit.read" in plan else f
+        if b == ".bob-state.pickle" and mode == "rb":
+            err("load.open")
+        return real_open(path, mode, *a, **kw)
+
+    def p_fsync(fd):
+        # durability is tracked by the model only; the real fsync is skipped in this child (speed)
+        err("commit.fsync")
+        return None
+
+    def p_replace(src, dst):
+        if str(src).endswith(".dirty"):
+            err("save.rename")
+        elif str(src).endswith(".new"):
+            err("commit.rename")
+        return real_replace(src, dst)
+
+    def p_unlink(path, *a, **kw):
+        if str(path).endswith(".pickle.new"):
+            err("commit.unlink")
+        elif str(path).endswith(".bob-state.lock"):
+            err("unlock")
+        return real_unlink(path, *a, **kw)
+
+    def p_stat(path, *a, **kw):
+        if plan and isinstance(path, str) and path.endswith(".pickle.new"):
+            err("commit.stat")
+        return real_stat(path, *a, **kw)
+
+    def p_osopen(path, flags, *a, **kw):
+        if isinstance(path, str) and path.endswith(".bob-state.lock"):
+            err("lock.open")
+        return real_osopen(path, flags, *a, **kw)
+
+    builtins.open, os.fsync, os.unlink, os.stat, os.open = p_open, p_fsync, p_unlink, p_stat, p_osopen
+    bob.state.replacePath = p_replace
+
+    def files():
+        out = {}
+        for f in sorted(os.listdir(".")):
+            if f.startswith(".bob-state"):
+                out[f] = real_open(f, "rb").read().hex()
+        return out
+
+    def step(faults, fn):
+        plan.clear()
+        plan.update(faults or {})
+        del hits[:]
+        try:
+            fn()
+            exc = None
+        except BaseException as e:  # noqa
+            exc = type(e).__name__ + ":" + str(getattr(e, "slogan", ""))[:40]
+        plan.clear()
+        return {"exc": exc, "files": files(), "hits": list(hits)}
+
+    devnull = real_open(os.devnull, "w")
+    olderr, oldout = sys.stderr, sys.stdout
+    sys.stderr = sys.stdout = devnull
+    results = []
+    for n, h in enumerate(hists):
+        work = os.path.join(base, "f%d" % n)
+        os.mkdir(work)
+        os.chdir(work)
+        U = h["universe"]
+        res = {"sessions": [], "views": []}
+        box = {}
+        for sess in h["sessions"]:
+            rec = {"calls": []}
+            res["sessions"].append(rec)
+
+            def do_init():
+                box["s"] = None
+                box["s"] = _BobState()
+            rec["init"] = step(sess.get("init_plan"), do_init)
+            s = box["s"]
+            if rec["init"]["exc"] is not None or s is None:
+                continue
+            res["views"].append(view(s, U))
+            calls = sess["calls"]
+            if sess.get("crash"):
+                calls = calls[:sess["crash"]["cut_calls"]]
+            for c in calls:
+                r = step(c.get("plan"), lambda: do_call(s, c))
+                res["views"].append(view(s, U))
+                rec["calls"].append(r)
+            if sess.get("crash"):
+                g = sess["crash"].get("garble")
+                if g is not None and os.path.exists(".bob-state.pickle.new"):
+                    with real_open(".bob-state.pickle.new", "wb") as f:
+                        f.write(bytes.fromhex(g))
+                if os.path.exists(".bob-state.lock"):
+                    real_unlink(".bob-state.lock")
+                rec["crashed"] = files()
+            else:
+                rec["fin"] = step(sess.get("fin_plan"), s.finalize)
+        # --- afterwards: fresh start without faults
+        plan.clear()
+        if os.path.exists(".bob-state.lock"):
+            real_unlink(".bob-state.lock")
+        res["before_fresh"] = files()
+        try:
+            s = _BobState()
+            res["fresh"] = {"exc": None, "view": view(s, U), "files": files()}
+            s.setResultHash("work/zz/9", b"later")
+            v1 = view(s, U)
+            s.finalize()
+            s2 = _BobState()
+            v2 = view(s2, U)
+            s2.finalize()
+            res["later"] = {"ok": v1 == v2 and s2.getResultHash("work/zz/9") == b"later"}
+        except BaseException as e:  # noqa
+            res.setdefault("fresh", {"exc": type(e).__name__ + ":" + str(getattr(e, "slogan", e))[:80]})
+            if res["fresh"].get("exc") is None:
+                res["later"] = {"ok": False, "exc": type(e).__name__ + ":" + str(getattr(e, "slogan", e))[:80]}
+        results.append(res)
+    sys.stderr, sys.stdout = olderr, oldout
+    builtins.open = real_open
+    json.dump(results, real_open(out_path, "w"))
+
+
+FAULT_CHILD_TAIL = """
+if __name__ == "__main__":
+    fault_child_main(sys.argv)
+"""
+
+
+def fault_child_source():
+    return ("import ast, json, os, sys\n\n" + "\n\n".join(inspect.getsource(f) for f in (canon, mkjc, view, do_call, fault_child_main))
+            + FAULT_CHILD_TAIL)
+
+
+def _cf_plan(cf, errno_name):
+    p = {}
+    if cf.get("pos"):
+        p["commit." + cf["pos"]] = errno_name
+    if cf.get("unlinkFails"):
+        p["commit.unlink"] = errno_name
+    return p
+
+
+def gen_fault_history(r, full=False):
+    """sessions of API calls with I/O errors and crashes.  `full`: also the start-up faults outside `StartOK`
+    (exists() of the uncommitted file fails / the unlink of a rejected uncommitted file fails)."""
+    base = gen_script(r, max_inv=4, max_calls=8)
+    if full and r.random() < 0.4:
+        # the shape that needs several things at once: a completed invocation, a crash that garbles the uncommitted
+        # file, a start-up whose discard of the rejected file is obstructed, no save in that invocation
+        e = r.choice(["ENOSPC", "EIO"])
+        cf = r.choice([{"pos": None, "unlinkFails": True}, {"pos": "stat", "unlinkFails": False},
+                       {"pos": "open", "unlinkFails": True}])
+        mk = lambda k, v: {"m": "setResultHash", "a": [k, canon(v)], "p": [repr(k), canon(v)]}  # noqa
+        pre = [c for c in base["invocations"][0] if c["m"] not in ("setAsync", "setSync")][:3]
+        s1 = {"calls": pre + [mk("work/a/1", b"one")], "init": {}, "fin": {}, "init_plan": {}, "fin_plan": {}}
+        s2 = {"calls": [mk("work/a/1", b"two"), mk("work/b/1", b"x")], "init": {}, "fin": {}, "init_plan": {}, "fin_plan": {},
+              "crash": {"cut_calls": r.choice([1, 2]), "garble": r.choice(["", "000000", "00" * 40])}}
+        s3 = {"calls": r.choice([[], [mk("work/a/1", b"one")]]), "init": {"commit": cf}, "fin": {},
+              "init_plan": _cf_plan(cf, e), "fin_plan": {}}
+        return {"sessions": [s1, s2, s3], "universe": base["universe"]}
+    sessions = []
+    for calls in base["invocations"]:
+        e = r.choice(["ENOSPC", "EIO"])
+        depth = 0
+        cs = []
+        for c in calls:
+            depth += {"setAsync": 1, "setSync": -1}.get(c["m"], 0)
+            if depth < 0:
+                depth = 0
+                continue
+            c = dict(c)
+            if r.random() < 0.3 and c["m"] not in ("setAsync",):
+                k = r.choice(["open", "write1", "write2", "rename"])
+                if k == "open":
+                    c["fault"], c["plan"] = "open", {"save.open": e}
+                elif k == "rename":
+                    c["fault"], c["plan"] = "rename", {"save.rename": e}
+                else:
+                    c["fault"], c["plan"] = {"write": 3}, {"save.write": [e, "first" if k == "write1" else "last"]}
+            cs.append(c)
+        cs += [{"m": "setSync"}] * depth
+        sess = {"calls": cs, "init": {}, "fin": {}}
+        if r.random() < 0.35:
+            k = r.random()
+            if k < 0.12:
+                sess["init"]["lock"] = True
+            elif k < 0.24:
+                sess["init"]["load"] = True
+            else:
+                poss = ["open", "read", "fsync", "rename"] + (["stat"] if full else [])
+                cf = {"pos": r.choice(poss + [None] if full else poss), "unlinkFails": bool(full and r.random() < 0.6)}
+                sess["init"]["commit"] = cf
+        if r.random() < 0.4:
+            cf = {"pos": r.choice(["stat", "open", "fsync", "rename", None]), "unlinkFails": r.random() < 0.3}
+            sess["fin"] = {"commit": cf, "unlock": r.random() < 0.15}
+        ip = _cf_plan(sess["init"].get("commit", {}), e)
+        if sess["init"].get("lock"):
+            ip["lock.open"] = e
+        if sess["init"].get("load"):
+            ip["load.open"] = e
+        sess["init_plan"] = ip
+        fp = _cf_plan(sess["fin"].get("commit", {}), e)
+        if sess["fin"].get("unlock"):
+            fp["unlock"] = e
+        sess["fin_plan"] = fp
+        if r.random() < 0.35:
+            sess["crash"] = {"cut_calls": r.randrange(len(cs) + 1),
+                             "garble": r.choice([None, "", "000000", "00" * 40])}
+        sessions.append(sess)
+    return {"sessions": sessions, "universe": base["universe"]}
+
+
+def run_fault_children(tmp, repo, hists, tag, timeout=120):
+    d = os.path.join(tmp, "fault-" + tag)
+    os.makedirs(d, exist_ok=True)
+    helper = os.path.join(d, "fchild.py")
+    with open(helper, "w") as f:
+        f.write(fault_child_source())
+    hp, op = os.path.join(d, "hists.json"), os.path.join(d, "out.json")
+    json.dump(hists, open(hp, "w"))
+    env = dict(os.environ, PYTHONPATH=os.path.join(repo, "pym"))
+    try:
+        p = subprocess.run([sys.executable, helper, d, hp, op], env=env, stdout=subprocess.PIPE, stderr=subprocess.PIPE,
+                           timeout=timeout)
+    except subprocess.TimeoutExpired:
+        return None, "fault child: time-out"
+    if p.returncode != 0 or not os.path.exists(op):
+        return None, "fault child failed: " + p.stderr.decode("utf-8", "replace")[-300:]
+    return json.load(open(op)), None
+
+
+def _fault_batch_worker(job):
+    tmp, repo, part, tag = job
+    return run_fault_children(tmp, repo, part, tag)
+
+
+def _fault_runs(ctx):
+    """(history, result) pairs, cached: the oracle and the correspondence look at the same runs"""
+    if "fault" in _CACHE:
+        return _CACHE["fault"]
+    n = ctx.scale(150, 6000)
+    hists = [gen_fault_history(ctx.subrng("fault", i)) for i in range(n)]
+    # the start-up faults outside StartOK (full fault model) are generated separately
+    nfull = ctx.scale(60, 2000)
+    hists_full = [gen_fault_history(ctx.subrng("fault-full", i), full=True) for i in range(nfull)]
+    out = {"ok": [], "full": [], "skip": None}
+    B = 15
+    for key, hs in (("ok", hists), ("full", hists_full)):
+        if ctx.out_of_time():
+            out["skip"] = "fault runs: out of time"
+            break
+        jobs = [(ctx.tmp, ctx.repo, hs[a:a + B], "%s-%d" % (key, a)) for a in range(0, len(hs), B)]
+        for (tmp, repo, part, tag), (res, why) in zip(jobs, ctx.parallel(_fault_batch_worker, jobs)):
+            if res is None:
+                out["skip"] = why
+                continue
+            out[key] += list(zip(part, res))
+    _CACHE["fault"] = out
+    return out
+
+
+def fault_check_one(h, res):
+    """the property's wording on one faulty history of the implementation: the state a later start loads is one
+    of the snapshots (in-memory states after the start or after some attempted API call, or the empty state),
+    never unreadable; a later successful save is durable.  Returns (what, signature) or None."""
+    fr = res.get("fresh", {})
+    if fr.get("exc") is not None:
+        return ("after a history of I/O errors and crashes the next start fails: %s" % fr["exc"], "unreadable")
+    allowed = res["views"]
+    if fr["view"] not in allowed and fr["view"] != res.get("empty_view"):
+        return ("after a history of I/O errors and crashes the next start loads a state that is no snapshot", "non-snapshot")
+    if not res.get("later", {}).get("ok"):
+        return ("a successful save + finalize after a history of I/O errors is not what the next start loads", "later-save-lost")
+    # an invocation in which no call and no step reported an error and no commit fault was injected is durable
+    last, lres = h["sessions"][-1], res["sessions"][-1]
+    if not last.get("crash") and "fin" in lres and lres["init"]["exc"] is None and lres["fin"]["exc"] is None \
+            and not any(x.startswith("commit.") for x in lres["init"]["hits"] + lres["fin"]["hits"]) \
+            and all(c["exc"] is None for c in lres["calls"]) and res["views"] and fr["view"] != res["views"][-1]:
+        return ("every call and finalize of the last invocation returned without error, yet the next start does not load "
+                "its final state (an I/O error was swallowed)", "silent-loss")
+    return None
+
+
+def _uses_unverified_commit(h):
+    """does the history contain the ingredients of F-C10-3: a start-up whose discard is obstructed"""
+    return any(s["init"].get("commit", {}).get("unlinkFails") or s["init"].get("commit", {}).get("pos") == "stat"
+               for s in h["sessions"])
+
+
+def fault_oracle(ctx):
+    import time
+    t0 = time.time()
+    runs = _fault_runs(ctx)
+    if runs["skip"]:
+        ctx.skip(runs["skip"])
+    ev = None
+    for key in ("ok", "full"):
+        for i, (h, res) in enumerate(runs[key]):
+            if ev is None:
+                ev = empty_view(os.path.join(ctx.tmp), h["universe"]) if False else None
+            res["empty_view"] = _empty_view_cached(ctx, h["universe"])
+            nfaults = sum(len(r.get("hits", [])) for s in res["sessions"] for r in [s.get("init", {})] + s.get("calls", []) + [s.get("fin", {})])
+            ctx.case(("fault", key, i), nontrivial=nfaults > 0,
+                     sample={"sessions": [[c["m"] + ("!" + str(c.get("fault")) if c.get("fault") else "") for c in s["calls"]]
+                                          for s in h["sessions"]], "faults_hit": nfaults} if i < 2 else None)
+            for s in res["sessions"]:
+                for r in [s.get("init", {})] + s.get("calls", []) + [s.get("fin", {})]:
+                    for site in r.get("hits", []):
+                        ctx.count("fault_sites_hit", site)
+            bad = fault_check_one(h, res)
+            ctx.count("fault_oracle", "ok" if bad is None else bad[1])
+            if bad is None:
+                continue
+            what, kind = bad
+            case = {"kind": "fault", "history": h}
+            if kind == "unreadable" and key == "full" and _uses_unverified_commit(h):
+                # the genuine defect F-C10-3 (see the report): reported under its own signature; until it is listed in
+                # known-findings.json it is recorded in the notes only (the check must not fail on the unchanged tree)
+                ctx.notes["F-C10-3_reproduced"] = ctx.notes.get("F-C10-3_reproduced", 0) + 1
+                ctx.notes.setdefault("F-C10-3_first_history", {"seed_index": i, "sessions": [
+                    {"init": s["init"], "calls": [c["m"] for c in s["calls"]], "fin": s["fin"], "crash": s.get("crash")}
+                    for s in h["sessions"]]})
+                if _finding_listed(FAULT_SIG_UNREADABLE):
+                    ctx.violation(what + " (a rejected uncommitted file that could not be deleted is committed unverified by finalize)",
+                                  case, FAULT_SIG_UNREADABLE)
+                continue
+            ctx.violation(what, case, "fault-" + kind)
+    ctx.notes["t_fault_oracle_s"] = round(time.time() - t0, 1)
+
+
+def _finding_listed(sig):
+    try:
+        kf = json.load(open(os.path.join(os.path.dirname(os.path.dirname(os.path.dirname(os.path.abspath(__file__)))),
+                                         "known-findings.json")))
+        return any(k.get("signature") == sig and k.get("status") == "known" for k in kf.get("findings", []))
+    except Exception:  # noqa
+        return False
+
+
+def _empty_view_cached(ctx, U):
+    if "empty_view" not in _CACHE:
+        d = os.path.join(ctx.tmp, "emptyview")
+        os.makedirs(d, exist_ok=True)
+        _CACHE["empty_view"] = fresh_start(d, {}, U)[1]
+    return _CACHE["empty_view"]
+
+
+def _real_snap(hexdata):
+    import pickle
+    data = bytes.fromhex(hexdata)
+    try:
+        if not my_verify(data):
+            return "unverified"
+        return snap_of_state(pickle.loads(data[:-4]))
+    except Exception:  # noqa
+        return "undecodable"
+
+
+def _model_snap(f):
+    d = f["data"]
+    if "snap" in d and d.get("verifies"):
+        return d["snap"]
+    return "unverified" if "snap" in d or "undecodable" in d else "undecodable"
+
+
+def _cmp_files(real, model):
+    """names present; decoded content of the committed and the uncommitted file"""
+    r = {NAMES[k]: (_real_snap(v) if NAMES[k] in ("pickle", "new") else None) for k, v in real.items() if k in NAMES}
+    m = {k: (_model_snap(v) if k in ("pickle", "new") else None) for k, v in model.items()}
+    for d in (r, m):
+        for k in d:
+            if d[k] == "undecodable":
+                d[k] = "unverified"
+    return r, m
+
+
+def _exc_code(exc):
+    if exc is None or exc.startswith("KeyError"):
+        return 0
+    if exc.startswith("AssertionError"):
+        return 1
+    if exc.startswith("ParseError"):
+        return 2
+    return exc
+
+
+def fault_correspond(ctx):
+    import time
+    t0 = time.time()
+    runs = _fault_runs(ctx)
+    pairs = [(k, i, h, res) for k in ("ok", "full") for i, (h, res) in enumerate(runs[k])]
+    if not pairs:
+        return
+    REL = "real _BobState under injected OSErrors == Model.StateFS faulty machine (exception kind, files after every step, fresh start)"
+
+    def msess(s):
+        d = {"init": s["init"], "fin": s["fin"],
+             "calls": [dict(model_call(c), **({"fault": c["fault"]} if c.get("fault") else {})) for c in s["calls"]]}
+        if s.get("crash"):
+            g = s["crash"].get("garble")
+            d["crash"] = {"cut_calls": s["crash"]["cut_calls"], "garble": {} if g is None else {"new": g}}
+        return d
+    reqs = [{"op": "runF", "sessions": [msess(s) for s in h["sessions"]]} for _, _, h, _ in pairs]
+    replies = ctx.lean(DRIVER, reqs)
+    for (key, i, h, res), rep in zip(pairs, replies):
+        case = {"kind": "fault", "history": h}
+        ok = True
+        steps = 0
+        for si, (rs, ms) in enumerate(zip(res["sessions"], rep["sessions"])):
+            ri, mi = rs["init"], ms["init"]
+            rres = "ok" if ri["exc"] is None else ("locked" if "locked" in ri["exc"] else
+                                                   "loadIO" if "Error loading" in ri["exc"] else "error")
+            mres = mi["res"] if mi["res"] in ("ok", "locked", "loadIO") else "error"
+            a, b = _cmp_files(ri["files"], mi["files"])
+            if (rres, a) != (mres, b):
+                ctx.disagree(REL, dict(case, at=["init", si]), [rres, a], [mres, b])
+                ok = False
+                break
+            steps += 1
+            if rres != "ok":
+                continue
+            bad = False
+            for ci, (rc, mc) in enumerate(zip(rs["calls"], ms.get("calls", []))):
+                a, b = _cmp_files(rc["files"], mc["files"])
+                ra, mb = _exc_code(rc["exc"]), mc["raised"]
+                if (ra, a) != (mb, b):
+                    ctx.disagree(REL, dict(case, at=["call", si, ci]), [ra, a], [mb, b])
+                    bad = True
+                    break
+                steps += 1
+                ctx.count("fault_call_outcome", {0: "returns", 1: "AssertionError", 2: "ParseError"}.get(mb, "other"))
+            if bad:
+                ok = False
+                break
+            if "crashed" in rs:
+                a, b = _cmp_files(rs["crashed"], ms.get("crashed", {}))
+            else:
+                a, b = _cmp_files(rs["fin"]["files"], ms["fin"]["files"])
+                rfa = rs["fin"]["exc"] is not None and rs["fin"]["exc"].startswith("AssertionError")
+                if rfa != ms["fin"]["raised"]:
+                    a = [rs["fin"]["exc"], a]
+                    b = [ms["fin"]["raised"], b]
+            if a != b:
+                ctx.disagree(REL, dict(case, at=["end", si]), a, b)
+                ok = False
+                break
+            steps += 1
+        if not ok:
+            continue
+        # what a fault-free start loads afterwards
+        fr = res.get("fresh", {})
+        mfr = rep["fresh"]
+        if fr.get("exc") is not None:
+            real = "error"
+        else:
+            pk = fr["files"].get(".bob-state.pickle")
+            real = None if pk is None else _real_snap(pk)
+        model = "error" if mfr["res"] != "ok" else mfr["loaded"]
+        if real != model:
+            ctx.disagree(REL, dict(case, at=["fresh"]), real, model)
+            continue
+        ctx.case(("fault-corr", key, i), nontrivial=steps > 2)
+        ctx.count("fault_fresh", "error" if model == "error" else ("empty" if model is None else "snapshot"))
+    ctx.notes["t_fault_correspond_s"] = round(time.time() - t0, 1)
+
+
 def oracle(ctx):
     import time
     t0 = time.time()
@@ -1103,6 +1639,7 @@ def oracle(ctx):
                            "is exactly what the implementation saved" if want else "is a detectably garbled saved file", label),
                           {"kind": "verify", "hex": g.hex(), "want": want}, "verify-decision-wrong")
     ctx.notes["t_verify_s"] = round(time.time() - t0, 1)
+    fault_oracle(ctx)
 
 
 def _script_of(ctx, i):
@@ -1207,6 +1744,7 @@ def correspond(ctx):
     t0 = time.time()
     try:
         _correspond(ctx)
+        fault_correspond(ctx)
     finally:
         ctx.notes["t_correspond_s"] = round(time.time() - t0, 1)
 
@@ -1375,6 +1913,18 @@ def _short(d):
 
 def replay(ctx, case):
     k = case.get("kind")
+    if k == "fault":
+        h = case["history"]
+        res, why = run_fault_children(ctx.tmp, ctx.repo, [h], "replay")
+        if res is None:
+            ctx.skip("replay: " + why)
+            return
+        res[0]["empty_view"] = _empty_view_cached(ctx, h["universe"])
+        bad = fault_check_one(h, res[0])
+        if bad is not None:
+            sig = FAULT_SIG_UNREADABLE if (bad[1] == "unreadable" and _uses_unverified_commit(h)) else "fault-" + bad[1]
+            ctx.violation(bad[0], case, sig)
+        return
     if k == "crash":
         import random
         script = case["script"]
@@ -1455,7 +2005,13 @@ MANIFEST = {
             "nothing; asynchronous sections emit nothing and end in exactly one save; the Adler-32 trailer round-trips, rejects short and "
             "all-zero files and any single-byte change. The model is tied to the current source by strace-level differential runs of "
             "random API sequences (op lists, snapshots, trailer bytes, recovery of real crash images) and regenerated constants. "
-            "Independently the crash-image replay on the implementation is the property oracle.",
+            "Independently the crash-image replay on the implementation is the property oracle. I/O errors (ENOSPC/EIO at every "
+            "file-system call of __save/__commit/finalize/__init__, exception handling transliterated) are inside the model: with "
+            "arbitrary faults and crashes the next start loads the state committed by the last error-free finalize or a snapshot "
+            "completely saved since, PROVIDED the start-up commit can get rid of a rejected uncommitted file (StartOK; without it the "
+            "statement is refuted in Lean and reproduced on the implementation: F-C10-3); a later error-free save + finalize makes the "
+            "then-current state durable from any directory content; a failed save changes nothing but .dirty; lock facts under faults. "
+            "Tie and oracle: OSErrors injected into real _BobState runs in a child process.",
     "note": "trusted: Lean kernel, harness/props/c10.py (incl. its strace parser and POSIX bookkeeping), tools/consts/c10.py, CPython "
             "pickle/zlib/struct/os, strace; assumptions: POSIX rename/unlink/O_EXCL atomic and durable in order, fsync durable, Detectable "
             "garbling, stale lock removed by the user after a crash",
